@@ -85,7 +85,11 @@ def judge(case, c2mod, ctx=None):
     # (1)+(2): library transform
     random.seed(seed)
     try:
-        http = t.transform(c2data, _mk_request(c2mod, req))
+        if case.get("default_request"):
+            # no initial request at all: the library's own default (must be a fresh empty request on every call)
+            http = t.transform(c2data)
+        else:
+            http = t.transform(c2data, _mk_request(c2mod, req))
     except Exception as e:  # noqa: BLE001
         return "transform.exception", f"{type(e).__name__}: {e}"
     got_msg = _msg_of(http)
@@ -171,7 +175,7 @@ def check_case(case, ctx):
         f"form:{case['form']}", f"blocks:{sum(1 for s in prog if s[0] == 'BUILD') or 1}", f"enc:{min(nenc, 6)}",
         *(f"term:{t}" for t in terms), *(f"op:{s[0].upper()}" for s in prog if s[0].upper() in codec.ENCODERS + codec.STATIC),
         "emptyarg" if any(s[0].upper() in ("APPEND", "PREPEND") and s[1] in (b"", 0) for s in prog) else "noemptyarg",
-        "req:populated" if case["req"]["uri"] else "req:empty"))
+        "req:populated" if case["req"]["uri"] else "req:default" if case.get("default_request") else "req:empty"))
 
 
 # ---- generators -----------------------------------------------------------------------------------------
@@ -233,9 +237,12 @@ def gen_payload(rng, prog=()):
     return rng.randbytes(rng.choice([0, 1, 2, 3, 15, 16, 17, 40, 40, rng.randrange(0, cap + 1)]))
 
 
+EMPTY_REQ = {"method": b"", "uri": b"", "params": {}, "headers": {}, "body": b""}
+
+
 def gen_req(rng, form):
     if rng.random() < 0.45:
-        return {"method": b"", "uri": b"", "params": {}, "headers": {}, "body": b""}
+        return dict(EMPTY_REQ, params={}, headers={})
     return {
         "method": rng.choice([b"GET", b"POST"]),
         "uri": rng.choice([b"", b"/base", b"/submit.php", b"/a/b"]),
@@ -259,6 +266,7 @@ def run_shard(shard, ctx):
             kinds = rng.choice([["metadata"], ["id", "output"], ["output", "id"], ["output"], ["metadata", "id", "output"]])
             prog = gen_client_prog(rng, kinds)
             case = {"form": "client", "prog": prog, "c2": {k: gen_payload(rng, prog) for k in kinds}, "req": gen_req(rng, "client"), "seed": rng.getrandbits(32)}
+            case["default_request"] = case["req"] == EMPTY_REQ and rng.random() < 0.6
         else:
             req = gen_req(rng, "server")
             sprog = gen_server_prog(rng)
